@@ -171,6 +171,24 @@ class Unserialisable(object):
         raise TypeError("this object refuses to be serialised")
 
 
+def unserialisable_with(exc_class):
+    """an object whose serialisation fails with an error of the given class (serialisation code is user code: it can fail any way)"""
+    class Refusing(object):
+        __slots__ = ()
+
+        def __getstate__(self):
+            raise exc_class("this object's serialisation fails its own way")
+    return Refusing()
+
+
+class HalfBuilt(object):
+    """a __slots__ object with an unassigned slot: reading its state raises AttributeError"""
+    __slots__ = ("a", "b")
+
+    def __init__(self):
+        self.a = 1
+
+
 @server.expose
 class Raiser(object):
     """raises exceptions described by a server-side table (the exception is built on the server)"""
